@@ -128,6 +128,70 @@ Fixpoint tree_nodes (fuel : nat) (s : N) (u : list N) : list (list N) :=
                             end) labels
   end.
 
+(* ---- leftmost automata (C03/C04) ------------------------------------------------------------ *)
+(* some pattern occurs in u starting at offset k *)
+Definition occurs_at (u : list N) (k : nat) : bool :=
+  existsb (fun pv => is_prefix (fst pv) (skipn k u)) pvs.
+(* the least start of a pattern occurrence inside u *)
+Definition mu0 (u : list N) : option nat := find (occurs_at u) (seq 0 (length u)).
+(* following the textbook fail link of u would drop the start of the leftmost occurrence in u *)
+Definition lm_dead (u : list N) : bool :=
+  match mu0 u with
+  | Some m => (m <? length u - length (lsuf (tl u)))%nat
+  | None => false
+  end.
+(* the pattern that is the suffix of u starting at mu0 u, if there is one *)
+Definition lm_out (u : list N) : option (N * V) :=
+  match mu0 u with
+  | Some m => match pats_eq (skipn m u) with x :: _ => Some x | [] => None end
+  | None => None
+  end.
+
+Definition lm_local_ok (maxdepth : nat) (s : N) (u : list N) : bool :=
+  (negb (s =? ROOT) || is_nil u)
+  && negb (s =? DEAD)
+  && (length u <? maxdepth)%nat
+  && (is_nil u
+      || match failof s with
+         | Ok f => if lm_dead u then f =? DEAD
+                   else optN_eqb (walk ROOT (lsuf (tl u))) (Some f)
+         | _ => false
+         end)
+  && match outposof s with
+     | Ok p => match lm_out u with
+               | None => p =? 0
+               | Some lv => negb (p =? 0)
+                            && match outat p with
+                               | Ok o => (o_length o =? fst lv) && veqb (o_value o) (snd lv)
+                               | _ => false
+                               end
+               end
+     | _ => false
+     end.
+
+Fixpoint lm_tree_ok (fuel : nat) (maxdepth : nat) (s : N) (u : list N) : bool :=
+  match fuel with
+  | O => false
+  | S f =>
+    lm_local_ok maxdepth s u
+    && forallb (fun c => match child s c with
+                         | Ok (Some t) => lm_tree_ok f maxdepth t (u ++ [c])
+                         | Ok None => true
+                         | _ => false
+                         end) labels
+  end.
+
+Fixpoint nodupb (l : list (list N)) : bool :=
+  match l with
+  | [] => true
+  | x :: r => negb (existsb (list_eqb x) r) && nodupb r
+  end.
+
+Definition lm_cert_ok (nslots : nat) : bool :=
+  lm_tree_ok (S max_plen) (S nslots) ROOT []
+  && forallb (fun pv => negb (is_nil (fst pv)) && inT (fst pv)) pvs
+  && nodupb (map fst pvs).
+
 (* ---- the search loops, abstractly (the concrete models are proved equal to these) -------- *)
 Variable skip : N -> bool.           (* labels on which next_state answers ROOT at once *)
 
@@ -143,6 +207,31 @@ Fixpoint g_next (fuel : nat) (s c : N) : res N :=
   end.
 Definition g_step (fuel : nat) (s c : N) : res N :=
   if skip c then Ok ROOT else g_next fuel s c.
+
+Fixpoint g_next_lm (fuel : nat) (s c : N) : res N :=
+  match fuel with
+  | O => OutOfFuel
+  | S f =>
+    ch <- child s c ;;
+    match ch with
+    | Some t => Ok t
+    | None =>
+      if s =? ROOT then Ok ROOT
+      else s' <- failof s ;; if s' =? DEAD then Ok ROOT else g_next_lm f s' c
+    end
+  end.
+
+(* the same loop on strings: None = a dead link was met (the search falls back to the root) *)
+Fixpoint lm_str (fuel : nat) (u : list N) (c : N) : option (list N) :=
+  match fuel with
+  | O => None
+  | S f =>
+    if inT (u ++ [c]) then Some (u ++ [c])
+    else match u with
+         | [] => Some []
+         | _ :: r => if lm_dead u then None else lm_str f (lsuf r) c
+         end
+  end.
 
 End GenCert.
 
@@ -165,6 +254,13 @@ Definition bwc_plen (p : list N) : N := N.of_nat (length p).
 Definition bwc_cert_ok (pvs : list (list N * V)) (nslots nouts : nat) : bool :=
   cert_ok V veqb bwc_child bwc_failof bwc_outposof bwc_outat byte_labels bwc_plen pvs nslots nouts.
 End BwCert.
+
+Definition bw_lm_cert_ok {V} (veqb : V -> V -> bool) (A : bw_automaton V) (pvs : list (list N * V)) : bool :=
+  let sget := bw_sget V A in
+  let oget := bw_oget V A in
+  is_leftmost (bw_kind A)
+  && lm_cert_ok V veqb (bwc_child sget) (bwc_failof sget) (bwc_outposof sget) (bwc_outat V oget) byte_labels bwc_plen pvs
+                (length (bw_states A)).
 
 Definition bw_cert_ok {V} (veqb : V -> V -> bool) (A : bw_automaton V) (pvs : list (list N * V)) : bool :=
   let sget := bw_sget V A in
